@@ -253,6 +253,13 @@ def random_children(rng, r, wild):
 NAMED = {'A': 'a', 'B': 'b', 'C': 'c', '_D': 'd', '_E': 'e'}
 ALL_LITS = ['x', 'y', 'z', 'a', ',', '(', ')']     # "a" coincides with terminal A's pattern
 LITS = ALL_LITS[:]
+# Name collisions (text-level stream): lark names an anonymous symbol literal after a table ("+" -> PLUS,
+# "-" -> MINUS, ...) and an anonymous word literal after its upper-cased text ("plus" -> PLUS).  The generator
+# lets user terminals (with OTHER patterns) or earlier word literals occupy those names; the literal must still
+# stand for exactly its own text.  (symbol literal, auto name, pattern of the user terminal that squats the name)
+COLLIDE = [('+', 'PLUS', 'q'), ('-', 'MINUS', 'w'), (',', 'COMMA', 'v'), ('*', 'STAR', 'j'), ('(', 'LPAR', 'h'),
+           (';', 'SEMICOLON', 'g'), ('.', 'DOT', 'k')]
+KEYWORDS = {'+': 'plus', '-': 'minus'}     # word literals whose auto-name equals the symbol literal's (no letter a-e)
 LPAR, RPAR = '(', ')'
 
 
@@ -265,6 +272,7 @@ class Gram:
         self.text_rules = []   # lines of lark text
         self.by_name = {}
         self.features = set()
+        self.named = dict(NAMED)
 
 
 def render(e, top=False):
@@ -349,6 +357,18 @@ def gen_grammar(rng, rich=True):
     """A random grammar with the shaping features; rule i refers to rules j > i (a DAG), plus
     guarded recursion `"(" r ")"` behind an optional/alternative."""
     G = Gram()
+    named = dict(NAMED)
+    lits = LITS[:5]
+    if rich and rng.random() < 0.5:
+        G.features.add('name-collision')
+        for sym_, auto, squat in rng.sample(COLLIDE, rng.randint(1, 3)):
+            lits = lits + [sym_, sym_]
+            r = rng.random()
+            if r < 0.55:
+                named[auto] = squat                   # user terminal owning the literal's auto-name
+            if sym_ in KEYWORDS and r > 0.35:
+                lits = lits + [KEYWORDS[sym_], KEYWORDS[sym_]]      # word literal with the same auto-name
+    G.named = named
     n = rng.randint(2, 5)
     names = ['start']
     for i in range(1, n):
@@ -363,23 +383,23 @@ def gen_grammar(rng, rich=True):
             if x < 0.4:
                 return ('param', 'p')
             if x < 0.75:
-                return ('tok', rng.choice(list(NAMED)))
+                return ('tok', rng.choice(list(named)))
             G.features.add('lit')
-            return ('lit', rng.choice(LITS[:5]))
+            return ('lit', rng.choice(lits))
         if x < 0.32:
-            return ('tok', rng.choice(list(NAMED)))
+            return ('tok', rng.choice(list(named)))
         if x < 0.5:
             G.features.add('lit')
-            return ('lit', rng.choice(LITS[:5]))
+            return ('lit', rng.choice(lits))
         later = names[i + 1:]
         if later and x < 0.9:
             return ('rule', rng.choice(later))
         if templates and not in_tmpl and i >= 0:
             G.features.add('template')
             ok_later = [x for x in later if not nullable(('rule', x), G)]
-            arg = rng.choice(list(NAMED) + ok_later)
+            arg = rng.choice(list(named) + ok_later)
             return ('tmpl', templates[0], [arg])
-        return ('tok', rng.choice(list(NAMED)))
+        return ('tok', rng.choice(list(named)))
 
     def expr(i, depth, in_tmpl=False):
         x = rng.random()
@@ -399,7 +419,7 @@ def gen_grammar(rng, rich=True):
                 break
             body = leaf(i, in_tmpl)
         if nullable(body, G):
-            body = ('tok', rng.choice(list(NAMED)))
+            body = ('tok', rng.choice(list(named)))
         if x < 0.78:
             G.features.add('opt')
             return ('opt', body)
@@ -429,10 +449,14 @@ def gen_grammar(rng, rich=True):
             mods += '!'
         nalts = rng.choice([1, 1, 2, 2, 3])
         alts = []
-        for _ in range(nalts):
+        for k_alt in range(nalts):
             e = seq(i, 0)
+            if '?' in mods and k_alt == 0 and i > 0 and rng.random() < 0.35:
+                # a ?rule whose value can be a placeholder None (or a single token): `?r: [X]` / `?r: [X] | ...`
+                G.features.add('?rule-value-none')
+                e = ('seq', [('maybe', ('seq', [leaf(i)]))])
             alias = None
-            if not nm.startswith('_') and rng.random() < 0.25:
+            if not nm.startswith('_') and rng.random() < 0.25 and not ('?' in mods and k_alt == 0):
                 alias = rng.choice(['al1', 'al2'])
                 G.features.add('alias')
             alts.append((e, alias))
@@ -491,7 +515,7 @@ def gen_grammar(rng, rich=True):
     for t, td in tdefs.items():
         pre = ('!' if '!' in td['mods'] else '') + ('?' if '?' in td['mods'] else '')
         lines.append('%s%s{p}: %s' % (pre, t, '\n  | '.join(render(e, True) + (' -> %s' % al if al else '') for e, al in td['alts'])))
-    for k, v in NAMED.items():
+    for k, v in named.items():
         lines.append('%s: "%s"' % (k, v))
     G.text = '\n'.join(lines) + '\n'
     return G
@@ -522,7 +546,7 @@ def gen_text(rng, G, name='start', budget=None):
             raise TooDeep()
         k = e[0]
         if k == 'tok':
-            return NAMED[e[1]]
+            return G.named[e[1]]
         if k == 'lit':
             return e[1]
         if k == 'rule':
@@ -554,13 +578,32 @@ def gen_text(rng, G, name='start', budget=None):
 
 
 # ---- the oracle: all derivations, shaped by the documented rules ------------------------------------
+LIT_TYPE = '?lit'
+
+
+def canon_lit_types(t, named):
+    """token types lark invented for anonymous literals are not part of the documented shaping: keep the type
+    only when it is a terminal the grammar text defines"""
+    if t is None:
+        return None
+    if t[0] == 't':
+        return t if t[1] in named else ('t', LIT_TYPE, t[2])
+    return ('T', t[1], tuple(canon_lit_types(c, named) for c in t[2]))
+
+
 class TooMany(Exception):
     pass
 
 
 class Oracle:
-    def __init__(self, G, keep_all, mp, litname, limit=3000):
-        self.G, self.ka, self.mp, self.litname, self.limit = G, keep_all, mp, litname, limit
+    def __init__(self, G, keep_all, mp, litname=None, limit=3000):
+        """The meaning of the grammar TEXT: a named terminal stands for the pattern written in its definition, an
+        anonymous literal for exactly its own text.  Token types: the terminal's name; for an anonymous literal the
+        name of the user terminal with the same pattern if there is one, else LIT_TYPE (lark invents a name)."""
+        self.G, self.ka, self.mp, self.limit = G, keep_all, mp, limit
+        self.by_pattern = {}
+        for k, v in G.named.items():
+            self.by_pattern.setdefault(v, k)
 
     def size(self, e, ka):
         """number of symbols the expression keeps (FindRuleSize as documented: longest alternative)"""
@@ -630,7 +673,7 @@ class Oracle:
         t = self.text
         k = e[0]
         if k == 'tok':
-            c = NAMED[e[1]]
+            c = self.G.named[e[1]]
             if t.startswith(c, pos):
                 kept = ka or not e[1].startswith('_')
                 return [(pos + len(c), (('t', e[1], c),) if kept else ())]
@@ -638,7 +681,7 @@ class Oracle:
         if k == 'lit':
             c = e[1]
             if t.startswith(c, pos):
-                return [(pos + len(c), (('t', self.litname[c], c),) if ka else ())]
+                return [(pos + len(c), (('t', self.by_pattern.get(c, LIT_TYPE), c),) if ka else ())]
             return []
         if k in ('rule', 'tmpl'):
             nm = e[1] if k == 'rule' else inst_name(e)
